@@ -350,8 +350,15 @@ func (w *vxfwWorld) Build(t *simrt.Tape, spec RunSpec) {
 			}
 		}
 		for _, cl := range []string{"focusin", "focusout", "enter", "leave"} {
-			if t.Draw(3) == 0 {
+			switch t.Draw(6) {
+			case 0, 1:
 				wd.acts["target/"+cl] = actRedraw
+			case 2:
+				// consuming a hover notification consumes that
+				// notification, not the mouse event that caused it
+				if cl == "enter" || cl == "leave" {
+					wd.acts["target/"+cl] = actConsumeRedraw
+				}
 			}
 		}
 	}
